@@ -69,7 +69,8 @@ def run_events(run, replay, prefix, pid):
         # spec -> code: behaviours of the design model with events (roots on step boundaries shared by two steps, two functions crossing in
         # one step in either order, terminal after non-terminal, continuation calls) replayed on the real code: the reported events must
         # be exactly the model's, in its order
-        modelreplay.phase(run, ["OdeSystemSim_fixed_nofault", "OdeSystemSim_adaptive_nofault"], pid, ("Events",), keep=modelreplay.has_events)
+        modelreplay.phase(run, ["OdeSystemSim_fixed_nofault", "OdeSystemSim_adaptive_nofault", "OdeSystemSim_fixed_nodense", "OdeSystemSim_adaptive_nodense"], pid,
+                          ("Events",), keep=modelreplay.has_events)
 
 
 def check(run, replay=None):
